@@ -924,7 +924,7 @@ pub fn main(args: &Args) -> i32 {
     };
     println!("sim_io property={PROP} tier={} VERIF_SEED={base_seed} runs={runs} worker_processes={workers}", tier.name());
     let t0 = std::time::Instant::now();
-    let work_dir = format!("{}/sim/target/c05-work-{}", simcore::VERIF_DIR, std::process::id());
+    let work_dir = format!("{}/sim/target/c05-work-{}", simcore::verif_dir(), std::process::id());
     let _ = std::fs::remove_dir_all(&work_dir);
     std::fs::create_dir_all(&work_dir).unwrap_or_else(|e| harness_error(&format!("mkdir {work_dir}: {e}")));
     let exe = std::env::current_exe().unwrap_or_else(|e| harness_error(&format!("current_exe: {e}")));
@@ -1062,7 +1062,7 @@ pub fn main(args: &Args) -> i32 {
         // abort-class signatures carry the entry-point suffix added above; probe on the bare class
         let probe_sig = if sig.starts_with("abort:") || sig.starts_with("hang-backstop") { sig.rsplitn(2, ':').nth(1).unwrap_or(sig).to_string() } else { sig.clone() };
         let (cm, info) = minimise(&c, &probe_sig, &format!("{work_dir}/min-{idx}"));
-        let path = format!("{}/replays/{PROP}-{}-{}.json", simcore::VERIF_DIR, base_seed, idx);
+        let path = format!("{}/replays/{PROP}-{}-{}.json", simcore::verif_dir(), base_seed, idx);
         simcore::write_json_atomic(&path, &json!({"case": cm.to_json()}));
         let (rsig, rhash, rdetail) = run_case_in_child(&path, backstop * 3);
         let (final_case, detail, hash) = if rsig == probe_sig { (cm, rdetail, rhash) } else { (c.clone(), detail0.clone(), String::new()) };
@@ -1155,7 +1155,7 @@ pub fn main(args: &Args) -> i32 {
             "sampled, not exhaustive"
         ],
     });
-    simcore::write_json_atomic(&format!("{}/evidence/{PROP}.json", simcore::VERIF_DIR), &ev);
+    simcore::write_json_atomic(&format!("{}/evidence/{PROP}.json", simcore::verif_dir()), &ev);
     println!(
         "runs={} decoded={} damaged={} damaged_decoded={} traces={} nontrivial={} deaths={} backstop={} violating_runs={} wall={:.1}s digest={:016x}",
         acc.runs, acc.decoded, acc.damaged, acc.damaged_decoded, traces, nontrivial, process_deaths, backstop_hits, acc.violations.total(), wall, acc.digest
